@@ -77,13 +77,18 @@ class C15(Prop):
                     if rnd.randint(0, 5) > 0:            # a sixth of the files have no globals
                         for g in NAMES:
                             r = rnd.randint(0, 5)
-                            if r <= 1:
+                            if r == 0 and j + 1 < depth:
+                                entries[g] = "struct"      # a global of a struct type that only the chain's last file defines
+                            elif r <= 1:
                                 entries[g] = "property"
                             elif r == 2 and not last_of_all:   # the innermost base never carries markers (they would be plain entries)
                                 entries[g] = "removed"
                     doc = {}
                     if entries or rnd.randint(0, 1):
-                        doc["globals"] = {k: ({"removed": True} if v == "removed" else {"property": "read-only"}) for k, v in entries.items()}
+                        doc["globals"] = {k: ({"removed": True} if v == "removed" else ({"struct": "Shape"} if v == "struct" else {"property": "read-only"}))
+                                          for k, v in entries.items()}
+                    if j == depth - 1 and depth > 1:
+                        doc["structs"] = {"Shape": {"w": {"property": "read-only"}, "h": {"property": "read-only"}}}
                     if j + 1 < depth:
                         doc["base"] = "s%d_%d" % (sidx, j + 1)
                     open(os.path.join(pd, nm + ".yml"), "w").write("---\n" + yaml.safe_dump(doc))
